@@ -123,4 +123,12 @@ Definition prog_saver_close : list act := [Close "self._reader"; Call "self.stop
 
 Definition prog_start_all : list act := [ForEach "x1" "self._observers" [Call "x1.start()"]; Call "self.start()"].
 
+(** what the observers make of a detection (id, region): the fields the print worker hands to the --printf template (each time
+    rendered by the --time-format formatter) and the fields the region saver hands to its file-name template *)
+Definition print_fields : list string :=
+  ["duration=self._format_time(message[1].duration)"; "end=self._format_time(message[1].meta.end)"; "id=message[0]";
+   "start=self._format_time(message[1].meta.start)"].
+Definition save_fields : list string :=
+  ["duration=message[1].duration"; "end=message[1].meta.end"; "id=message[0]"; "start=message[1].meta.start"].
+
 Close Scope string_scope.
